@@ -375,7 +375,12 @@ class dotdict_base( object ):
                              for k,v in super( dotdict_base, self ).items() )
 
     def __copy__( self ):
-        return type( self )( (k,copy.copy( v ))
+        """Must copy each layer, including the layers held in lists (addressable as name[i])."""
+        def dup( v ):
+            if isinstance( v, list ):
+                return [ dup( e ) for e in v ]
+            return copy.copy( v )
+        return type( self )( (k,dup( v ))
                              for k,v in super( dotdict_base, self ).items() )
 
 
